@@ -8,11 +8,17 @@ use vhc::textgen::{Case, Corpus, FAMILIES, gen_family, tokens};
 /// mutants that stay inside the grammar).
 pub const LOCAL: &[&str] = &["gen-prog", "gen-prog-mutant", "ident-swap", "lit-swap", "op-swap", "kw-swap", "item-splice"];
 
-/// The default set: see vlib/props/c06.py for the narrowing rule and its justification.
+/// Local families that are NOT part of the default set (narrowing, DESIGN.md 4.3): on the pinned tree they
+/// keep reaching new panic sites deep in the semantic phases (generic traits, associated types, impl matching,
+/// bytecode generation of rejected-looking-but-accepted programs) without the key space saturating; see
+/// vlib/props/c06.py NARROWING. They stay available through `families=all` (or by name) for exploration.
+pub const WIDE_ONLY: &[&str] = &["gen-prog", "gen-prog-mutant", "item-splice"];
+
 pub fn select_families(spec: &str) -> Vec<String> {
     let all: Vec<String> = FAMILIES.iter().chain(LOCAL.iter()).map(|s| s.to_string()).collect();
     match spec {
-        "all" | "default" => all,
+        "all" => all,
+        "default" => all.into_iter().filter(|f| !WIDE_ONLY.contains(&f.as_str())).collect(),
         s => {
             let v: Vec<String> = s.split(',').filter(|x| !x.is_empty()).map(|x| x.to_string()).collect();
             for f in &v {
